@@ -81,6 +81,11 @@ class Check:
         self.rules_doc[rid] = text
 
     def ob(self, rule, site, key, ok, construct="", detail="", loc="", witness=None):
+        if not ok and ("φ(" in str(construct) or (getattr(self, "opaque_is_unread", False) and "⟦" in str(construct))):
+            # the value the rule looked at contains an unresolved merge of definitions (φ) (or, for properties that say so, an opaque
+            # comprehension / lambda ⟦..⟧): the comparison was made on something the engine could not read - not evidence of a violation
+            self.incomplete.append(f"{site}: {rule}/{key} compared an unread value `{str(construct)[:100]}` (unrecognised form)")
+            return True
         o = Obligation(rule, site, key, ok, construct, detail, loc, witness)
         self.obs.append(o)
         return o.ok
